@@ -98,10 +98,11 @@ def loop_const_invariant(paths, keyname, value):
         if not p.loops:
             continue
         lmap = p.loops[-1][1]
+        exact = any(fmt(k) == keyname for k in lmap)
         for k, (h, pre) in lmap.items():
             if fmt(k) == keyname:
                 fk, hv, prev = k, h, pre
-            elif parent and fmt(k) == parent:
+            elif parent and fmt(k) == parent and not exact:        # the field's own entry is the value read at the head
                 fk = ('f', ('&', k), field)
                 hv = sym.field_of_value(h, field)
                 prev = sym.field_of_value(pre, field) if pre is not None else None
@@ -381,8 +382,78 @@ def rule_c(ck, R):
                    'reports the first cursor position for which no area is found' if bad is None and nrep else (bad or 'no NOENTRY report'))
 
 
+class WalkAccount:
+    """progress variables of a block walker's loop (see walker)"""
+
+    def __init__(self, ps):
+        self.track = track = {}
+        candidates = self.candidates
+        for p in ps:
+            if p.end != 'loopback' or not p.loops:
+                continue
+            node, lmap = p.loops[-1]
+            deltas = {}
+            for k, (sg, what) in candidates(lmap).items():
+                h = lmap[k][0]
+                d = (L(strip_cast(p.mem.get(k, h))) - L(h)).scale(sg)
+                deltas[k] = d
+            vals = list(deltas.values())
+            agree = {k: sg_w for k, sg_w in candidates(lmap).items() if vals and all((deltas[k] - v).is_const() and (deltas[k] - v).c == 0 for v in vals)}
+            if vals and not agree:
+                # take the majority step (the one most candidates share)
+                best = max(vals, key=lambda v: sum(1 for w in vals if (w - v).is_const() and (w - v).c == 0))
+                agree = {k: sg_w for k, sg_w in candidates(lmap).items() if (deltas[k] - best).is_const() and (deltas[k] - best).c == 0}
+            t = track.get(id(node))
+            track[id(node)] = agree if t is None else {k: v for k, v in t.items() if k in agree}
+
+    @staticmethod
+    def candidates(lmap):
+        out = {}
+        for k, (h, pre) in lmap.items():
+            if pre is None:
+                continue
+            pr = strip_cast(pre)
+            if pr == N:
+                out[k] = (-1, 'n')
+            elif pr == ADDR:
+                out[k] = (1, 'addr')
+            elif pr == BUF:
+                out[k] = (1, 'buf')
+            elif pr == C(0):
+                out[k] = (1, '0')
+        return out
+
+    def progress(self, p):
+        node, lmap = p.loops[-1]
+        tr = self.track.get(id(node)) or {}
+        Ps = []
+        kinds = set()
+        for k, (sg, what) in sorted(tr.items(), key=lambda kv: fmt(kv[0])):
+            if k in lmap:
+                Ps.append((L(lmap[k][0]) - L(strip_cast(lmap[k][1]))).scale(sg))
+                kinds.add(what)
+        if not Ps:
+            return None, [], kinds
+        inv = []
+        for q in Ps[1:]:
+            inv += [Ps[0] - q, q - Ps[0]]
+        inv += [Lin.const(0) - Ps[0], Ps[0] - L(N)]
+        return Ps[0], inv, kinds
+
+    def step(self, p):
+        node, lmap = p.loops[-1]
+        k0 = sorted(self.track[id(node)].items(), key=lambda kv: fmt(kv[0]))[0]
+        h0 = lmap[k0[0]][0]
+        return (L(strip_cast(p.mem.get(k0[0], h0))) - L(h0)).scale(k0[1][0])
+
+
 def walker(ck, R, fn, rule, cb):
-    """register_block_{read,write}_unsafe / register_block_touches_hole"""
+    """register_block_{read,write}_unsafe / register_block_touches_hole, in whatever way the walk keeps its account.
+
+    The octets walked so far, P, are read off the *progress variables* of the loop: variables that start at one of
+    addr / buf / 0 and move up by the step, or start at n and move down by it (P = +-(value at the loop head - start
+    value)); they agree by induction, which is added as a fact, as is 0 <= P <= n.  Cursor = addr + P, buffer cursor =
+    buf + P, remaining = n - P - however the code spells them."""
     eng = R.eng
     ps = R.paths(fn, rule)
     if ps is None:
@@ -390,66 +461,71 @@ def walker(ck, R, fn, rule, cb):
     where = R.where(fn)
     nit = 0
     bad = None
+
+    acct = WalkAccount(ps)
+    candidates, track, progress = acct.candidates, acct.track, acct.progress
+
+    def same(facts, e):
+        return (e.is_const() and e.c == 0) or (eng.entails(facts, e) and eng.entails(facts, -e))
+
     for p in ps:
         if p.end != 'loopback' or not p.loops:
             continue
         lmap = p.loops[-1][1]
-        rk = [k for k, (h, pre) in lmap.items() if pre == N]
-        ak = [k for k, (h, pre) in lmap.items() if pre == ADDR]
-        bk = [k for k, (h, pre) in lmap.items() if pre == BUF]
-        if len(rk) != 1 or len(ak) != 1:
+        P, inv, kinds = progress(p)
+        if P is None:
             bad = 'walk variables do not start at (addr, n)'
             continue
         nit += 1
-        hr, ha = lmap[rk[0]][0], lmap[ak[0]][0]
-        facts = eng.path_facts(p)
-        r2, a2 = p.mem.get(rk[0], hr), p.mem.get(ak[0], ha)
-        step = L(hr) - L(r2)
-        d = (L(a2) - L(ha)) - step
-        if not (d.is_const() and d.c == 0):
-            bad = 'address advances by %s while the remaining count drops by %s' % (L(a2) - L(ha), step)
-        if bk:
-            hb = lmap[bk[0]][0]
-            b2 = p.mem.get(bk[0], hb)
-            d = (L(b2) - L(hb)) - step
-            if not (d.is_const() and d.c == 0):
-                bad = 'buffer cursor advances by %s, the step is %s' % (L(b2) - L(hb), step)
-        elif cb is not None:
-            bad = 'buffer cursor is not loop-carried from buf'
-        # area of this iteration: a = &t->area[an]
+        facts = eng.path_facts(p) + inv
+        post = {h: p.mem.get(k, h) for k, (h, pre) in lmap.items()}
+        step = acct.step(p)
+        CUR = L(ADDR) + P
+        REST = L(N) - P
+        # every candidate has to move with the others: a cursor that starts at addr but does not advance by the step
+        for k, (sg, what) in candidates(lmap).items():
+            if k not in track[id(p.loops[-1][0])]:
+                h = lmap[k][0]
+                d = (L(strip_cast(p.mem.get(k, h))) - L(h)).scale(sg)
+                bad = bad or ('%s advances by %s while the others move by %s' % (fmt(k), d, step))
+        if cb is not None and 'buf' not in kinds and not any(what in ('0',) for what in kinds):
+            bad = bad or 'buffer cursor is not loop-carried from buf'
+        # area of this iteration: a = &t->area[an], looked up for the cursor
         fa = p.calls('ra_find_area_by_addr')
-        if not fa or fa[-1].args[1] != ha:
+        if not fa or not same(facts, L(strip_cast(fa[-1].args[1])) - CUR):
             bad = 'area looked up for %s, not for the cursor' % (fmt(fa[-1].args[1]) if fa else None)
             continue
         ar = sym.add(('f', T, 'area'), fa[-1].result)
-        areas = [x for e in p.effects for a_ in (e.args or ()) for x in sym.subterms(a_) if x[0] == '+' and x[1][0] == 'h' and 'area' in x[1][1]]
-        # step = min(base + size - addr, rest): step <= rest and step <= base+size-addr
-        base_atoms = [x for c in [step] for x in c.atoms() if isinstance(x, tuple)]
-        if not eng.entails(facts, step - L(hr)):
+        if not eng.entails(facts, step - REST):
             bad = 'step %s not bounded by the remaining count' % step
         calls = [e for e in p.effects if e.kind == 'icall' and e.name.endswith(cb)] if cb else []
         if cb and fn.endswith('write_unsafe') and len(calls) != 1:
             bad = 'expected exactly one area %s per iteration' % cb
         for e in calls:
             # (a, buf, offset, count)
-            if not bk:
-                bad = 'the buffer pointer handed to the area %s never advances: every area chunk gets the start of the caller\'s buffer' % cb
-            elif e.args[1] != lmap[bk[0]][0]:
-                bad = 'area %s gets %s, expected the buffer cursor' % (cb, fmt(e.args[1]))
+            try:
+                db = L(strip_cast(e.args[1])) - (L(BUF) + P)
+            except Exception:      # noqa: BLE001 - not a linear pointer expression
+                db = None
+            if db is None or not same(facts, db):
+                if same(facts, L(strip_cast(e.args[1])) - L(BUF)) if db is not None else False:
+                    bad = 'the buffer pointer handed to the area %s never advances: every area chunk gets the start of the caller\'s buffer' % cb
+                else:
+                    bad = 'area %s gets %s, expected the buffer cursor' % (cb, fmt(e.args[1]))
             off, cnt = L(strip_cast(e.args[2])), L(strip_cast(e.args[3]))
             area_ptr = e.args[0]
             if strip_cast(area_ptr) != ar:
                 bad = bad or ('area %s is invoked on %s, not on the area that was looked up for the cursor (%s)' % (cb, fmt(area_ptr), fmt(ar)))
             base, size = L(('f', area_ptr, 'base')), L(('f', area_ptr, 'size'))
-            if not ((off - (L(ha) - base)).is_const() and (off - (L(ha) - base)).c == 0):
+            if not same(facts, off - (CUR - base)):
                 bad = 'offset passed is %s, expected cursor - base' % off
-            if not ((cnt - step).is_const() and (cnt - step).c == 0):
+            if not same(facts, cnt - step):
                 bad = 'count passed is %s, step is %s' % (cnt, step)
-            if not eng.entails(facts + [lin.le(base, L(ha))], off + cnt - size):
+            if not eng.entails(facts + [lin.le(base, CUR)], off + cnt - size):
                 bad = 'offset + count <= area size not entailed'
             # size_t differences inside offset/count must have ordered operands (cursor inside the area that was looked up:
             # established by the hole check before the unsafe walkers run), otherwise the count wraps to a huge value
-            inarea = [lin.le(base, L(ha)), lin.le(L(ha) + 1, base + size)]
+            inarea = [lin.le(base, CUR), lin.le(CUR + 1, base + size)]
             for tname, tt in (('count', strip_cast(e.args[3])), ('offset', strip_cast(e.args[2]))):
                 for st_ in sym.subterms(tt):
                     if st_[0] == '-' and not eng.entails(facts + inarea, L(st_[2]) - L(st_[1])):
@@ -465,10 +541,9 @@ def walker(ck, R, fn, rule, cb):
     # in-loop returns hand back the callback's failure; completion needs rest == 0 and reports success
     ndone = 0
     for p in ps:
-        if p.end != 'return' or not p.loops:
+        if p.end not in ('return', 'end') or not p.loops:
             continue
         lmap = p.loops[-1][1]
-        rk = [k for k, (h, pre) in lmap.items() if pre == N]
         calls = [e for e in p.effects if e.kind == 'icall' and cb and e.name.endswith(cb)]
         if calls:
             r = calls[-1].result
@@ -476,10 +551,12 @@ def walker(ck, R, fn, rule, cb):
                 bad = bad or 'the walk is left from inside an iteration with %s under {%s}: only a failure of the area %s may end it, and that failure is what is returned' % (
                     fmt(p.ret), '; '.join(fmt(c) for c in p.cond_terms()[-2:])[:160], cb)
             continue
-        if len(rk) == 1 and not p.calls('ra_find_area_by_addr'):
+        P, inv, kinds = progress(p)
+        if P is not None and not p.calls('ra_find_area_by_addr'):
             ndone += 1
-            z = L(lmap[rk[0]][0])
-            if not (eng.entails(p, z) and eng.entails(p, -z)):
+            z = L(N) - P
+            facts = eng.path_facts(p) + inv
+            if not (eng.entails(facts, z) and eng.entails(facts, -z)):
                 bad = bad or 'the walk completes under {%s} while atoms may remain' % '; '.join(fmt(c) for c in p.cond_terms()[-2:])
             code = dict(p.ret[2]).get('code') if p.ret is not None and p.ret[0] == 'struct' else None
             if cb is not None and code != C(0):
